@@ -46,14 +46,27 @@ def imJson (case : Json) : Json :=
   | some im => Json.mkObj [("imports", .arr (im.imports.map importToJson).toArray),
       ("selectors", .arr (im.selectors.map (fun (m, s) => Json.arr #[strs m, strs s])).toArray)]
 
+/-- the import manager `config_str()` prints from: recorded imports plus what the printed configurables need
+    (`reqs`: `[selector, import statement]` pairs in any order) -/
+def imReqJson (case : Json) : Json :=
+  let l := (jarr (jfield case "imlist")).map importOfJson
+  let reqs : List Req := (jarr (jfield case "reqs")).map (fun r => { sel := jstrs (jidx r 0), imp := importOfJson (jidx r 1) })
+  match IM.ofConfig l reqs with
+  | none => .null
+  | some im => Json.mkObj [("imports", .arr (im.imports.map importToJson).toArray),
+      ("selectors", .arr (im.selectors.map (fun (m, s) => Json.arr #[strs m, strs s])).toArray)]
+
 def run (case : Json) : Json :=
   let w := worldOfJson (jfield case "world")
   let units := (jarr (jfield case "units")).map (fun u => (jarr u).map stmtOfJson)
   let (b, e) := runUnits w (skipOfJson (jfield case "skip")) [] units
+  -- bindings made from Python after a successful parse: `[object, parameter, value]`
+  let b := if e.isSome then b else
+    (jarr (jfield case "prog")).foldl (fun b p => bindObj b (jnat (jidx p 0)) (jstr (jidx p 1)) (jint (jidx p 2))) b
   let rows := b.map (fun (o, kv) => Json.arr #[Json.num (o : Nat),
     Json.arr ((kv.map (fun (a, v) => Json.arr #[.str a, Json.num v])).toArray)])
   Json.mkObj [("bindings", .arr rows.toArray),
               ("err", match e with | none => .null | some e => .str (errName e)),
-              ("im", imJson case)]
+              ("im", imJson case), ("im_req", imReqJson case)]
 
 end Gin.Drv.DynDom
